@@ -85,5 +85,38 @@ def run(ctx):
         s = Stream(ctx, "literal message lines: real str(AssertionError) vs the model of message_generator.py (module rules and layer rules)")
         text_stream(ctx, s, ctx.size(6000, 60000))
         s.finish()
+    if not ctx.violations:
+        # a regex specification stands for the modules it matches: the REPORT of the rule with the pattern is the report of the
+        # rule naming those modules (same offending imports, same missing imports), not only the same verdict
+        from ..rules_common import evaluate, split_impl
+        from . import c11
+
+        s = Stream(ctx, "reports of rules with regex specifications (also shapes that match a package but not what lies below it) vs the rule naming the matched modules")
+        rng = ctx.rng("regex-reports")
+        insts = []
+        for _ in range(ctx.size(2500, 40000)):
+            nodes = gen.random_tree(rng, max_nodes=12, comps=gen.IDENT_ADVERSARIAL)
+            if len(nodes) < 3:
+                continue
+            insts.extend(i for i in c11.instances(rng, nodes, gen.random_imports(rng, nodes, 10)) if i[0] == "regex-expansion")
+        flat = [c for _, cs, _, _ in insts for c in cs]
+        res = evaluate(ctx, flat)
+        k = 0
+        for name, cs, pred, width in insts:
+            part = res[k : k + len(cs)]
+            k += len(cs)
+            s.evaluations += 1
+            (c1, i1, _), (c2, i2, _) = part[0], part[1]
+            a, b = split_impl(i1)[:2], split_impl(i2)[:2]
+            s.count("compact:" + a[0].split(":")[0])
+            if a[0] == "FAIL":
+                s.nontrivial.add(digest((c1["nodes"], c1["imps"], c1["ops"])))
+            if a != b:
+                ctx.violations.append({"kind": "property-violation",
+                                       "what": "the report of a rule with a regex specification differs from the report of the rule naming the modules the regex matches",
+                                       "rules": [gen.rule_line(c1), gen.rule_line(c2)], "impl": [i1, i2]})
+                if len(ctx.violations) >= 3:
+                    break
+        s.finish()
     return rule + (" Literal-lines stream: random module rules (plain, adversarial and odd names with blanks, commas, non-ASCII) and layer rules; "
                    "the message is split at newlines and compared as a list with the model's lines.")
